@@ -28,14 +28,22 @@ def parseKind (kind k d : String) : Option KV.Stmt :=
   | "a" => do some (.select (← k.toNat?))
   | _ => none
 
-def parseStmt (t : String) : Option (Bool × KV.Stmt) :=
-  match t.splitOn ":" with
+def parseStmt1 (parts : List String) : Option (Bool × KV.Stmt) :=
+  match parts with
   | ["n"] => some (false, .nop)
   | ["m", k, d, n] => do some (false, .upsertMany (← k.toNat?) (← d.toInt?) (← n.toNat?))
   | ["m", k, d, n, "q"] => do some (true, .upsertMany (← k.toNat?) (← d.toInt?) (← n.toNat?))
   | [kind, k, d] => do some (false, ← parseKind kind k d)
   | [kind, k, d, "q"] => do some (true, ← parseKind kind k d)
   | _ => none
+
+/-- a trailing `:from` / `:raise` (the body turns the statement's MySQL errors into its own error) or `:reraise` component guards the statement -/
+def parseStmt (t : String) : Option (Bool × KV.Stmt) :=
+  let parts := t.splitOn ":"
+  match parts.getLast? with
+  | some "from" | some "raise" => (parseStmt1 parts.dropLast).map fun p => (p.1, .guarded true p.2)
+  | some "reraise" => (parseStmt1 parts.dropLast).map fun p => (p.1, .guarded false p.2)
+  | _ => parseStmt1 parts
 
 def parseScript (t : String) : Option (Option (Nat × Err)) :=
   if t == "-" then some none else
@@ -56,7 +64,7 @@ def handle (line : String) : String :=
     match (words a).mapM parseRow, (words b).mapM parseStmt, (words c).mapM parseScript with
     | some rows, some body, some scripts =>
       let db0 : KV.DB := rows.foldl (fun d p => KV.put p.1 p.2 d) []
-      let r := run KV.step db0 body scripts
+      let r := run KV.step KV.handler db0 body scripts
       let res := match r.error with
         | none => "ok"
         | some e => s!"err:{clsName e.cls}:{e.code}"
